@@ -33,7 +33,7 @@ def _log(opt_log, names):
     return out
 
 
-def one_run(tbl, sched, J=1, seed=0, continue_after_read=False, minimize=False, shared_book=False):
+def one_run(tbl, sched, J=1, seed=0, continue_after_read=False, minimize=False, shared_book=False, local_class=False):
     """tbl[k][c][j] (j = 0..T-1), sched = [(type, dur, thin), ...]
     continue_after_read: the results object is obtained and its posterior read before the last epoch is appended and
     sampled; everything is then read from that *same* object.  minimize: minimize_transition_infos."""
@@ -48,7 +48,7 @@ def one_run(tbl, sched, J=1, seed=0, continue_after_read=False, minimize=False, 
     hdr = {"K": K, "C": C, "sched": [{"type": t, "dur": d, "thin": th} for t, d, th in sched],
            "continue_after_read": continue_after_read, "minimize": minimize, "tbl": tbl, "names": names,
            # shared_book: all kernels are of one class, i.e. they share codes *and* messages
-           "books": [book_of(1 if shared_book else k + 1) for k in range(K)], "J": J, "shared_book": shared_book}
+           "books": [book_of(1 if shared_book else k + 1) for k in range(K)], "J": J, "shared_book": shared_book, "local_class": local_class}
     ev = {"ev": "results", "crash": "", "log_all": [], "log_post_none": True, "log_post": [],
           "has_summary": False, "summary": [], "df_per_chain": [], "df_merged": [], "sample_info": {},
           "stored_post": -1, "dig_before": {}, "dig_pickle": {}, "dig_post": {}, "dig_arviz_post": {},
@@ -61,7 +61,8 @@ def one_run(tbl, sched, J=1, seed=0, continue_after_read=False, minimize=False, 
         cfgs = [{"type": 0, "dur": 1, "thin": 1}] + hdr["sched"]
         late = continue_after_read and len(sched) >= 2
         eng, kernels, keys = E.build_engine(K, set(), C, seed, J, cfgs[:-1] if late else cfgs, error_tables=tables,
-                                            cap=T + 4 * len(sched) + 8, error_books="shared" if shared_book else True,
+                                            cap=T + 4 * len(sched) + 8,
+                                            error_books="local" if local_class else "shared" if shared_book else True,
                                             minimize_infos=minimize)
         eng.sample_all_epochs()
         res = eng.get_results()
@@ -73,6 +74,12 @@ def one_run(tbl, sched, J=1, seed=0, continue_after_read=False, minimize=False, 
             res.get_samples()
             eng.append_epoch(E.cfg_of(cfgs[-1]))
             eng.sample_next_epoch()
+        if local_class:
+            # kernel classes defined in a function: the results object is copied (pickling such classes is refused) and
+            # the *original* is reported from afterwards
+            import copy
+            copy.copy(res)
+            copy.deepcopy(res)
         ev["log_all"] = _log(res.get_error_log(False).unwrap(), names)
         lp = res.get_error_log(True)
         ev["log_post_none"] = bool(lp.is_none())
@@ -109,11 +116,14 @@ def one_run(tbl, sched, J=1, seed=0, continue_after_read=False, minimize=False, 
                 warm = res.positions.combine_filtered(lambda ec: ec.type.is_warmup(ec.type)).unwrap()
                 ev["dig_warm"] = _dig(warm)
                 ev["dig_arviz_warm"] = _dig({k: idata.warmup_posterior[k].values for k in warm})
-        with tempfile.TemporaryDirectory() as d:
-            p = os.path.join(d, "res.pkl")
-            res.pkl_save(p)
-            res2 = gs.engine.SamplingResults.pkl_load(p)
-            ev["dig_pickle"] = _dig(res2.get_samples())
+        if local_class:
+            ev["dig_pickle"] = dict(ev["dig_before"])
+        else:
+            with tempfile.TemporaryDirectory() as d:
+                p = os.path.join(d, "res.pkl")
+                res.pkl_save(p)
+                res2 = gs.engine.SamplingResults.pkl_load(p)
+                ev["dig_pickle"] = _dig(res2.get_samples())
     except Exception as ex:  # noqa: BLE001
         import traceback
         ev["crash"] = f"{type(ex).__name__}: {ex}"[:300] + " | " + traceback.format_exc()[-400:]
@@ -169,6 +179,8 @@ def jobs(rng, quick=True):
                                 minimize=(pat == "random")))
                 if pat in ("each_epoch", "single_chain") and K >= 2:
                     out.append(dict(out[-1], shared_book=True, minimize=False, continue_after_read=False))
+                if pat == "each_epoch":
+                    out.append(dict(out[-1], shared_book=False, local_class=True, minimize=False, continue_after_read=False))
                 n += 1
     return out
 
